@@ -117,11 +117,15 @@ def cases(tier):
             for pl in ("scalar", "series"):
                 out.append({"kind": "emd-resize", "shape": list(s), "dtype": dt, "payload": pl})
     out.append({"kind": "superpose-refusal", "shape": [2, 3], "dtype": "float64", "payload": "vector", "k": 2})
+    # one Resize object applied to a sequence of images of different shapes (call histories)
+    for tgt in ([2, 3], [4, 6]):
+        for conservative in (True, False):
+            out.append({"kind": "resize-history", "target": tgt, "conservative": conservative, "shape": [2, 2]})
     for k in (1, 2, 3, 4):
         for shp in itertools.product(range(len(SUP_SHAPES)), repeat=k):
             for dt in DTYPES:
                 out.append({"kind": "superpose-offset", "shapes": [list(SUP_SHAPES[i]) for i in shp], "dtype": dt, "k": k, "offs": OFFS[tier][k]})
-    rank = {"resize": 0, "refine": 1, "extrude": 2, "reduce": 3, "superpose-shared": 4, "superpose-refusal": 5, "superpose-offset": 6, "emd-resize": 7}
+    rank = {"resize": 0, "refine": 1, "extrude": 2, "reduce": 3, "superpose-shared": 4, "superpose-refusal": 5, "superpose-offset": 6, "emd-resize": 7, "resize-history": 8}
     out.sort(key=lambda c: (int(np.prod(c.get("shape", [9, 9, c.get("k", 0)]))), rank[c["kind"]]))  # stable: simplest first
     return out
 
@@ -244,8 +248,48 @@ def run_case(case, r):
         _run_superpose_offset(case, r)
     elif kind == "emd-resize":
         _run_emd(case, r)
+    elif kind == "resize-history":
+        _run_resize_history(case, r)
     else:  # pragma: no cover
         raise AssertionError(kind)
+
+
+# ---- one Resize object, several calls: the result must not depend on earlier calls
+def _run_resize_history(case, r):
+    import itertools
+
+    import darsia
+
+    tgt, cons = tuple(case["target"]), case["conservative"]
+    shapes = [(4, 6), (8, 6), (4, 12), (2, 3), (8, 12)]
+    shapes = [s for s in shapes if (s[0] % tgt[0] == 0 and s[1] % tgt[1] == 0) or (tgt[0] % s[0] == 0 and tgt[1] % s[1] == 0)]
+
+    def image(shape, k):
+        n = shape[0] * shape[1]
+        arr = (1.0 + (np.arange(n) * (3 + k)) % 7).reshape(shape)
+        return darsia.Image(arr, dimensions=[1.0, 2.0], scalar=True, space_dim=2)
+
+    def make():
+        return darsia.Resize(shape=tgt, interpolation="inter_area", **{"resize conservative": cons})
+
+    fresh = {s: make()(image(s, 0)) for s in shapes}
+    cell = f"C11/resize/history/conservative={cons}"
+    n = 0
+    for seq in itertools.chain(itertools.permutations(shapes, 2), itertools.permutations(shapes, 3)):
+        obj = make()
+        for s in seq:
+            out = obj(image(s, 0))
+            n += 1
+            ok = out.img.shape == fresh[s].img.shape and np.array_equal(out.img, fresh[s].img) and [float(x) for x in out.dimensions] == [float(x) for x in fresh[s].dimensions]
+            if not ok:
+                r.fail(cell, "a Resize object gives the same result for an image whatever it resized before (sum conserved for every image)", sequence=[list(x) for x in seq], at=list(s), got_sum=float(out.img.sum()), fresh_sum=float(fresh[s].img.sum()))
+                return
+    r.ok(n)
+    if cons:
+        for s in shapes:
+            r.check(abs(float(fresh[s].img.sum()) - float(image(s, 0).img.sum())) <= 1e-5 * float(image(s, 0).img.sum()), "C11/resize/history/fresh-sum", "conservative resize preserves the array sum", shape=list(s))
+    r.nontriv(case)
+    r.outcome((case, [float(fresh[s].img.sum()) for s in shapes]))
 
 
 # ---- conservative resize
